@@ -1,6 +1,9 @@
 package props
 
 import (
+	"io"
+	"github.com/sirupsen/logrus"
+	aperlogger "free5gclib/aper/logger"
 	"strings"
 	"bytes"
 	"fmt"
@@ -255,6 +258,8 @@ func c14rewrapN(seed []byte, runs []int, seen map[string]bool, emit func([]byte)
 	}
 }
 
+var c14seq int
+
 type c14state struct {
 	cur      atomic.Value // string: description of the input being decoded
 	start    atomic.Int64
@@ -290,7 +295,7 @@ func runC14(ctx *Ctx) {
 		pairAlphabet, maxGap = []byte{0x00, 0x01, 0x7f, 0x80, 0x81, 0xbf, 0xc0, 0xc1, 0xc4, 0xc5, 0xfe, 0xff}, 6
 	}
 	r.Rule = fmt.Sprintf("(a) every octet string of length 0..%d; (b) for each of %d seeds (reference encodings of every message type%s): every prefix, every single-octet substitution (len x 255), every single-bit flip, every 2-octet length form {8000,bfff,c4ff,ffff} at every position, runs of 6..200 (thorough: 2..3900) octets c4 / c1 / ff / 80 inserted at every position, the same runs (8 and 64 octets; thorough 2..1000) inserted at every position inside every IE value of every message and CHOICE alternative with the two enclosing length determinants re-computed, every IE value cut to 0..3 octets (last octet also adversarial) or short of its last 1..3 octets (these two also on encodings with a CHOICE alternative nested inside another non-default alternative or inside a mixed pair) or replaced by each single octet with the lengths re-computed, every pair of octets up to %d positions apart replaced by every pair from a %d-value adversarial alphabet (unknown identifiers x fragmented / overlong / zero length determinants)%s; (d) for every procedure code 0..63 and 255 (thorough: all 256) x {initiating, successful, unsuccessful}: container header {000000, 000001} followed by every string of <=4 (thorough: 5 for codes 0..63 and 255) octets over {00,01,02,03,40,80,82,ff}, outer length computed (messages no seed exists for, e.g. PRIVATE MESSAGE); "+
-		"oracle: ngap.Decoder returns (value|error) - no panic, per-call allocation <= %d MiB (schema-legal maximum is ~15 MiB for a 65535-element IE list), per-call CPU time below a %v horizon; each input is decoded in a shard process with an address-space limit; distinct = distinct inputs (hashed); non-trivial = all",
+		"oracle: ngap.Decoder returns (value|error) - no panic (every eighth input with the codec's logger at trace level; a returned error is also read), per-call allocation <= %d MiB (schema-legal maximum is ~15 MiB for a 65535-element IE list), per-call CPU time below a %v horizon; each input is decoded in a shard process with an address-space limit; distinct = distinct inputs (hashed); non-trivial = all",
 		maxLen, len(seeds), map[bool]string{true: " and of every value one CHOICE alternative / IE selection away", false: ""}[ctx.Thorough], maxGap, len(pairAlphabet),
 		map[bool]string{true: ", every pair of bit flips in the first 24 octets", false: ""}[ctx.Thorough], c14AllocBound>>20, c14Horizon)
 	r.Assume("allocation is measured per batch of 128 calls (runtime.MemStats.TotalAlloc) and per call when a batch exceeds the bound", "coverage-guided fuzzing named in the property's quantifier text is a different technique family and is not used")
@@ -333,11 +338,33 @@ func runC14(ctx *Ctx) {
 		st.cpuStart.Store(processCPU())
 		st.start.Store(time.Now().UnixNano())
 		var derr error
+		c14seq++
+		verbose := c14seq%8 == 0 // every eighth input with the codec's logger at its most verbose level (output discarded)
+		var lg *logrus.Logger
+		var oldOut io.Writer
+		var oldLevel logrus.Level
+		var oldHooks logrus.LevelHooks
+		if verbose {
+			lg = aperlogger.AperLog.Logger
+			oldOut, oldLevel = lg.Out, lg.Level
+			lg.SetOutput(io.Discard)
+			oldHooks = lg.ReplaceHooks(make(logrus.LevelHooks))
+			lg.SetLevel(logrus.TraceLevel)
+		}
 		perr := recoverErr(func() { _, derr = ngap.Decoder(in) })
+		if verbose {
+			lg.SetLevel(oldLevel)
+			lg.ReplaceHooks(oldHooks)
+			lg.SetOutput(oldOut)
+		}
 		st.start.Store(0)
 		out := "ok"
 		if derr != nil {
 			out = "err"
+			// the error returned is a value the caller reads: reading it must not crash either
+			if eperr := recoverErr(func() { _ = derr.Error() }); eperr != nil {
+				r.Violate("decode/error-value-panics-when-read/"+errClass(eperr), fmt.Sprintf("%x", in), eperr.Error(), nil)
+			}
 		}
 		if perr != nil {
 			out = "panic"
